@@ -168,6 +168,23 @@ func htmlBoundaryInputs() []string {
 			add("' src='j" + ref + "' ")
 			add("<a href=\"" + ref + "avascript:alert(1)\">")
 		}
+		// a byte-order mark (and other multi-byte prefixes) at offset 0 of vectors of every context
+		for _, v := range []string{"'onerror=alert(1)", "' onerror=alert(1) x='", "\"onerror=alert(1)", "`onerror=alert(1)", "onerror=alert(1)", " onerror=alert(1)", "<script>", "'><script>", "x' onclick=1 '", "href=javascript:x", "><script>", "/><xss>"} {
+			for _, pre := range []string{gen.BOM, gen.BOM + gen.BOM, "\xc3\xa9", "\xef\xbb", "\xfe\xff"} {
+				add(pre + v)
+			}
+		}
+		for _, n := range []int{4100, 70000} {
+			z := strings.Repeat("\x00", n)
+			add("<scr" + z + "ipt>")
+			add("<img src=x on" + z + "error=alert(1)>")
+			add("' hr" + z + "ef=javascript:x '")
+		}
+		// very long inputs
+		for _, n := range []int{1<<20 + 1, 4<<20 + 33, 16<<20 + 7} {
+			add(strings.Repeat("a", n) + "<script>alert(1)</script>")
+			add("<a title='" + strings.Repeat("a", n) + "' href=javascript:alert(1)>")
+		}
 		// CDATA opener case variants in front of vectors
 		for _, cd := range []string{"<![cdata[", "<![CData[", "<![cDATA[", "<![CDATA["} {
 			for _, v := range []string{"<script>alert(1)</script>", " a='><script>alert(1)</script>'", ">x<iframe>", "]]><script>"} {
